@@ -73,6 +73,11 @@ impl Prim {
                 let chain = p.split(',').map(|h| String::from_utf8(unhex(h)?).ok()).collect::<Option<Vec<_>>>()?;
                 Prim::Err(Box::new(ChainErr::new(&chain)))
             }
+            "erri" => {
+                // the same chain, sources stored inline in the error that wraps them
+                let chain = p.split(',').map(|h| String::from_utf8(unhex(h)?).ok()).collect::<Option<Vec<_>>>()?;
+                Prim::Err(crate::proto::inline_err(&chain))
+            }
             _ => return None,
         }))
     }
@@ -107,7 +112,7 @@ pub fn gen_prim_tok(rng: &mut Rng) -> String {
         16 => format!("string:{}", hex(gen::string(rng).as_bytes())),
         17 => format!("disp:{}", hex(gen::string(rng).as_bytes())),
         18 => format!("dbg:{}", hex(gen::string(rng).as_bytes())),
-        19 => format!("err:{}", gen::chain(rng).iter().map(|m| hex(m.as_bytes())).collect::<Vec<_>>().join(",")),
+        19 => format!("{}:{}", if rng.chance(1, 2) { "err" } else { "erri" }, gen::chain(rng).iter().map(|m| hex(m.as_bytes())).collect::<Vec<_>>().join(",")),
         20 => format!("bytes:{}", hex(&(0..rng.below(5)).map(|_| rng.next() as u8).collect::<Vec<_>>())),
         21 => "emptyv".to_owned(),
         _ => "empty".to_owned(),
@@ -195,7 +200,19 @@ impl Suite for Values {
                         4 => lines.push(format!("v get {}", xs(&gen::name(rng, small)))),
                         5 => lines.push(format!("v extend {}", entries_tok(&gen::entries(rng, 6, small, false)))),
                         6 => lines.push(format!("v collect {}", entries_tok(&gen::entries(rng, 8, small, false)))),
-                        7 => lines.push(format!("v json {}", entries_tok(&gen::entries(rng, 8, small, true)))),
+                        7 if rng.chance(1, 2) => lines.push(format!("v json {}", entries_tok(&gen::entries(rng, 8, small, true)))),
+                        7 => {
+                            // the carrier (`serde_json::Value`) holds 64-bit integers only
+                            let es: Vec<(String, Val)> = gen::entries(rng, 8, small, true)
+                                .into_iter()
+                                .map(|(k, v)| (k, match v {
+                                    Val::Int(i) if i64::try_from(i).is_err() => Val::Int(i128::from(i as i64)),
+                                    Val::UInt(u) if u64::try_from(u).is_err() => Val::UInt(u128::from(u as u64)),
+                                    v => v,
+                                }))
+                                .collect();
+                            lines.push(format!("v mapde {}", entries_tok(&es)));
+                        }
                         8 => lines.push((*rng.pick(&["v len", "v iter", "v iterrev", "v into"])).to_owned()),
                         _ => lines.push("v new".into()),
                     }
@@ -304,7 +321,7 @@ impl Suite for Values {
                             }
                             out.obs.push(format!("ret {}", opt_val(got)));
                         }
-                        "extend" | "collect" | "json" => {
+                        "extend" | "collect" | "json" | "mapde" => {
                             let es = t.entries().expect("entries");
                             if op != "extend" {
                                 reference.clear();
@@ -315,6 +332,24 @@ impl Suite for Values {
                             match op {
                                 "extend" => cur.extend(es.iter().map(|(k, v)| (k.clone(), v.to_real()))),
                                 "collect" => cur = es.iter().map(|(k, v)| (k.clone(), v.to_real())).collect(),
+                                "mapde" => {
+                                    // a self-describing deserializer with an exact size hint (serde's
+                                    // `MapDeserializer` over JSON values), duplicate keys included
+                                    use serde::Deserialize;
+                                    let pairs: Vec<(String, serde_json::Value)> = es
+                                        .iter()
+                                        .map(|(k, v)| (k.clone(), serde_json::from_str(&json::to_text(&json::val_tree(v))).expect("value tree parses")))
+                                        .collect();
+                                    let de = serde::de::value::MapDeserializer::<_, serde_json::Error>::new(pairs.into_iter());
+                                    match TracedValues::<String>::deserialize(de) {
+                                        Ok(vs) => cur = vs,
+                                        Err(e) => {
+                                            out.fails.push(format!("C15 deserializing from a map deserializer failed: {e}"));
+                                            out.obs.push("st err".into());
+                                            continue;
+                                        }
+                                    }
+                                }
                                 _ => {
                                     let text = json::to_text(&json::entries_tree(&es));
                                     match serde_json::from_str::<TracedValues<String>>(&text) {
@@ -480,7 +515,7 @@ pub fn expected_capture(tok: &str) -> Option<Val> {
             let b = unhex(p).unwrap();
             Val::Obj(format!("[{}]", b.iter().map(|x| format!("{x:02x}")).collect::<Vec<_>>().join(" ")))
         }
-        "err" => Val::Err(p.split(',').map(|h| String::from_utf8(unhex(h).unwrap()).unwrap()).collect()),
+        "err" | "erri" => Val::Err(p.split(',').map(|h| String::from_utf8(unhex(h).unwrap()).unwrap()).collect()),
         _ => return None,
     })
 }
